@@ -351,7 +351,9 @@ def _build(d):
     def one(spec, binary):
         if binary:
             return core.build_binary_tree(spec)
-        return _build_base(spec) if d.get("cls") == "base" else core.build_node_tree(spec)
+        if d.get("cls") == "base":
+            return _build_base(spec)
+        return core.build_node_tree(spec)
     root, nodes = one(d["spec"], d["binary"])
     roots = [root]
     if d.get("spec2") is not None:
